@@ -178,7 +178,9 @@ async def validate_segment(
     else:
         tasks: List[Awaitable[ValidationResultInContext]] = []
         for data_element in segment.data_elements:
-            tasks.append(validate_data_element(data_element, segment_validation.requirement_validation))
+            tasks.append(
+                validate_data_element(data_element, segment_validation.requirement_validation, soll_is_required)
+            )
         validation_results_in_context_data_elements = await asyncio.gather(*tasks)
 
     return [*validation_results_in_context, *validation_results_in_context_data_elements]
